@@ -103,7 +103,7 @@ OpOK(T, op) ==
     [] op.op = "div"    -> Has(T, "agents", op.k) /\ ~Has(T, "agents", op.d1)
                            /\ ~Has(T, "agents", op.d2) /\ op.d1 # op.d2
                            /\ op.d1 # op.k /\ op.d2 # op.k
-    [] op.op = "move"   -> Has(T, "agents", op.k) /\ ~Has(T, "pool", op.k)
+    [] op.op \in {"move", "moveupd"} -> Has(T, "agents", op.k) /\ ~Has(T, "pool", op.k)
     [] op.op = "moveback" -> Has(T, "pool", op.k) /\ ~Has(T, "agents", op.k)
     [] op.op = "adddel" -> ~Has(T, "agents", op.k) /\ Has(T, "agents", op.k2) /\ op.k # op.k2
     [] op.op = "gendel" -> ~Has(T, "agents", op.k) /\ Has(T, "agents", op.k2) /\ op.k # op.k2
@@ -128,6 +128,11 @@ Struct(S, op) ==
          IN DelS(S2, "agents", op.k)
     [] op.op = "move" ->
          LET m == S.tree["agents"][op.k]
+             S1 == PutS(S, "pool", op.k, m, <<"agents", op.k>>)
+         IN DelS(S1, "agents", op.k)
+    \* a move that carries an update for the node it moves (applied first)
+    [] op.op = "moveupd" ->
+         LET m == [S.tree["agents"][op.k] EXCEPT !.x = @ + 3]
              S1 == PutS(S, "pool", op.k, m, <<"agents", op.k>>)
          IN DelS(S1, "agents", op.k)
     [] op.op = "moveback" ->
@@ -245,7 +250,7 @@ Ops ==
   {[op |-> "none"]}
   \cup {[op |-> "add", k |-> k, x0 |-> x] : k \in Names, x \in {0, 5}}
   \cup {[op |-> "addex", k |-> k] : k \in Names}
-  \cup {[op |-> o, k |-> k] : o \in {"del", "delpath", "move", "moveback"}, k \in Names}
+  \cup {[op |-> o, k |-> k] : o \in {"del", "delpath", "move", "moveupd", "moveback"}, k \in Names}
   \cup {[op |-> "gen", k |-> k, tpl |-> t, x0 |-> x] : k \in Names, t \in Tpls, x \in {0, 5}}
   \cup {[op |-> "div", k |-> k, d1 |-> a, d2 |-> b] : k \in Names, a \in Names, b \in Names}
   \cup {[op |-> "adddel", k |-> k, x0 |-> 5, k2 |-> j] : k \in Names, j \in Names}
@@ -310,6 +315,10 @@ C09_Effects ==
                   Has(tree', "agents", d) /\ origin'[<<"agents", d>>] = New
                   /\ tree'["agents"][d].tpl = tree["agents"][op.k].tpl
                   /\ tree'["agents"][d].x = tree["agents"][op.k].x + Own(tree["agents"][op.k]))
+      /\ op.op = "moveupd" =>
+           (~Has(tree', "agents", op.k) /\ Has(tree', "pool", op.k)
+            /\ origin'[<<"pool", op.k>>] = <<"agents", op.k>>
+            /\ tree'["pool"][op.k].x = tree["agents"][op.k].x + 3 + Own(tree["agents"][op.k]))
       /\ op.op = "move" =>
            (~Has(tree', "agents", op.k) /\ Has(tree', "pool", op.k)
             /\ origin'[<<"pool", op.k>>] = <<"agents", op.k>>
